@@ -18,7 +18,13 @@ git checkout -q --detach "$(git -C /repo rev-parse HEAD)" 2>/dev/null
 git checkout -- . 
 git apply "$PATCH" || { echo "patch does not apply" >&2; exit 2; }
 mkdir -p $ISO/verif
-rsync -a --delete --exclude target --exclude build.log /verif/harness/ $ISO/verif/harness/ --exclude target
+if [ "${ISO_HARNESS:-working}" = "committed" ]; then
+    # the harness as last committed (to tell what a check caught before it was strengthened)
+    rm -rf $ISO/committed && mkdir -p $ISO/committed && git -C /verif archive HEAD harness | tar -x -C $ISO/committed
+    rsync -a --delete --exclude target --exclude build.log $ISO/committed/harness/ $ISO/verif/harness/
+else
+    rsync -a --delete --exclude target --exclude build.log /verif/harness/ $ISO/verif/harness/
+fi
 sed -i "s#path = \"/repo\"#path = \"$ISO/repo\"#" $ISO/verif/harness/Cargo.toml
 cp /verif/check /verif/KNOWN_FINDINGS.txt $ISO/verif/
 rsync -a --delete --exclude 'violation-*' /verif/replays/ $ISO/verif/replays/
